@@ -401,6 +401,20 @@ def UOut.value (o : UOut K) (F : K → K) (x : K) : K :=
     | none => x
   o.mul * F x'
 
+/-- the `out=` fix-up of `__array_ufunc__` (array.py:2030-2034).  When an `out` array was given
+    (in-place operators pass the left operand) and the rule returned a coefficient `mul ≠ 1`, the
+    code calls `multiply(out, mul, out=out)` on the *unyt* array: that re-enters `__array_ufunc__`
+    with `out` — still labelled with its old unit — and the bare number `mul`.  The inner call
+    multiplies the buffer and computes `_multiply_units(oldUnit, dimensionless)`; if that yields a
+    coefficient `≠ 1` again it re-enters itself with the same operands, without end
+    (`RecursionError`).  `some f`: the buffer was multiplied by `f`; `none`: no termination. -/
+def outFixup (pre : Prefixes K) (t : Lut K) (oldUnit : UnitV K) (mul : K) : Except Err (Option K) :=
+  if mul == 1 then .ok (some 1)
+  else
+    match multiplyUnits pre t oldUnit UnitV.dimensionless with
+    | .error e => .error e
+    | .ok (m', _) => if m' == 1 then .ok (some mul) else .ok none
+
 /-- `unyt_array.dot(b)`: the unit is `self.units * b.units` (no simplification), the numbers
     are `ndarray.dot` of the raw data -/
 def dotUnits (u0 u1 : UnitV K) : Except Err (Out K) :=
